@@ -7,7 +7,7 @@
    eval/veq      = Spec/PyEval.v  (CPython on the emitted subset; NaN-tolerant ==)
    wf            = invariants of real object graphs (fields match the class, dict keys
                    distinct hashable scalars, Decimal/float/date payloads well-formed)
-   guard         = g_array && g_imports && g_raw && g_init && g_std, one clause per
+   guard         = g_array && g_imports && g_init && g_std, one clause per
                    refutation below *)
 From Coq Require Import NArith ZArith List Bool String.
 From XV Require Import Base.Str Spec.PyEval Model.Pycode Proofs.Pycode Proofs.PycodeRefuted.
@@ -29,11 +29,6 @@ Theorem C18_import_collision_refuted :
   exists W o, wf W o = true /\ only_imports W o = true /\ roundtrip W o = false.
 Proof. exists W_wit, wit_collision. exact import_collision_refuted. Qed.
 Print Assumptions C18_import_collision_refuted.
-
-Theorem C18_qname_text_refuted :
-  exists W o, wf W o = true /\ only_raw W o = true /\ roundtrip W o = false.
-Proof. exists W_wit, wit_qname. exact qname_refuted. Qed.
-Print Assumptions C18_qname_text_refuted.
 
 Theorem C18_init_false_refuted :
   exists W o, wf W o = true /\ only_init W o = true /\ roundtrip W o = false.
